@@ -29,6 +29,7 @@ type bmSpec struct {
 	Inputs     int        `json:"inputs,omitempty"`
 	Outputs    int        `json:"outputs,omitempty"`
 	Bonds      [][2]string `json:"bonds,omitempty"`
+	ProcOrder  []int      `json:"procorder,omitempty"`   // processor i runs domain ProcOrder[i] (default: processor i runs domain i)
 	Shared     []string   `json:"shared,omitempty"`      // shared object strings
 	SharedLinks [][2]int  `json:"sharedlinks,omitempty"` // (processor, shared object)
 }
@@ -100,7 +101,12 @@ func buildBM(s *bmSpec) (bm *bondmachine.Bondmachine, err error) {
 		}
 		m.Program = prog
 		bm.Domains = append(bm.Domains, m)
-		bm.Add_processor(len(bm.Domains) - 1)
+		if len(s.ProcOrder) == 0 {
+			bm.Add_processor(len(bm.Domains) - 1)
+		}
+	}
+	for _, d := range s.ProcOrder {
+		bm.Add_processor(d)
 	}
 	for i := 0; i < s.Inputs; i++ {
 		bm.Add_input()
